@@ -553,6 +553,24 @@ fn polish(
     (words, best)
 }
 
+/// re-check a tape found elsewhere (fuzzer artifact); if it fails, shrink it with the own pass
+pub fn shrink_failing_tape(prop: &Prop, tier: Tier, known: &[Known], words: Vec<u32>, origin: &str) -> Option<Failure> {
+    // fuzzer tapes were generated with thorough sizes
+    for t in [tier, Tier::Thorough, Tier::Quick] {
+        if let Some(v) = still_fails(prop, t, known, &words) {
+            let (w, v) = polish(prop, t, known, words, v, 4000);
+            return Some(Failure {
+                words: w,
+                sub_check: v.sub_check,
+                message: v.message,
+                dump: v.dump,
+                origin: format!("{origin} (re-checked and shrunk by the engine, {} sizes)", t.name()),
+            });
+        }
+    }
+    None
+}
+
 // ------------------------------------------------------------------------------------------
 // worker
 
